@@ -439,6 +439,8 @@ class Exec:
         if c is self.c and "env" in inspect.signature(c.ensures).parameters:
             kw["env"] = FragResult(dict(getattr(self, "_final_env", {})))
             kw["calls"] = list(self.call_log)
+        if "result" in kw:
+            kw["result_arg"] = kw.pop("result")  # a parameter of the real function that is itself called `result`
         r = c.ensures(result=unwrap(result), **kw)
         if not isinstance(r, dict):
             r = {"post": r}
